@@ -22,6 +22,7 @@ EXPLANATION = (
     "R20.5: mutation after a fresh object escaped into Funsor.__init__/a term field/a term constructor. R20.6: per-function "
     "summaries (mutates parameter i, returns fresh / parameter / view) are propagated over resolved calls to a fixpoint and "
     "judged at the call site where the argument's ownership is known. Unknown origins are reported as unresolved, never failed."
+    " Added since: elements of locally built containers carry the origins of what was stored into them; `type(x).__name__ == 'Tensor'` narrows like isinstance."
 )
 ASSUMPTIONS = [
     "numpy/torch functions not listed as in-place or view-returning allocate their result (library semantics are trusted)",
